@@ -2,8 +2,12 @@ package c23
 
 import (
 	"encoding/json"
+	"fmt"
 	"io"
 	"log"
+	"os"
+	"runtime"
+	"time"
 
 	"verifharness/internal/hx"
 )
@@ -188,7 +192,23 @@ func shrink(raw json.RawMessage) []json.RawMessage {
 	return out
 }
 
+// watchdog: bufferAddData grows the chunk slice without bound when it is asked for a slot below
+// the buffer offset (the model's Blowup outcome). The faithful code never gets there under the
+// scripted environments, but a broken build can; stop before the machine runs out of memory.
+func watchdog() {
+	var ms runtime.MemStats
+	for {
+		time.Sleep(100 * time.Millisecond)
+		runtime.ReadMemStats(&ms)
+		if ms.HeapAlloc > 2<<30 {
+			fmt.Fprintln(os.Stderr, "c23: heap above 2 GiB: unbounded chunk-buffer growth in the component under test")
+			os.Exit(3)
+		}
+	}
+}
+
 func init() {
+	go watchdog()
 	log.SetOutput(io.Discard) // log.Panicf of the component under test prints before panicking
 	hx.Register(&hx.Prop{
 		ID:      "C23",
